@@ -66,11 +66,12 @@ class ReaderModel:
         for n in ast.walk(fn):
             if isinstance(n, ast.Assign) and len(n.targets) == 1 and isinstance(n.targets[0], ast.Name):
                 for how in ('search', 'match', 'fullmatch'):
-                    b = match_expr('V_re.%s(V_line)' % how, n.value)
-                    if b and b['V_re'].id in self.consts:
+                    b = match_expr('V_re.%s(E_subject)' % how, n.value)
+                    if b and b['V_re'].id in self.consts and b['V_re'].id != 'x' and 'findall' not in src(n.value):
                         line_re = b['V_re'].id
                         self.how = how
                         self.match_var = n.targets[0].id
+                        self.subject_expr = b['E_subject']
                 if any(isinstance(x, ast.Attribute) and x.attr == 'findall' for x in ast.walk(n.value)):
                     self.props_expr = n.value
                     self.props_var = n.targets[0].id
@@ -94,6 +95,21 @@ class ReaderModel:
         if self.skip_src not in ("line[0] == '#' or line.strip() == ''", "line.strip() == '' or line[0] == '#'",
                                  "line.startswith('#') or line.strip() == ''", "line[0] == '#' or not line.strip()"):
             raise AnalysisError('%s: comment/blank rule of _parse() not recognised: %r' % (NUMDB, self.skip_src))
+
+    def subject(self, line):
+        """What the reader actually hands to its line pattern (normally the line itself)."""
+        e = self.subject_expr
+        if isinstance(e, ast.Name):
+            return line
+        loopvar = None
+        for n in ast.walk(self.parse_fn):
+            if isinstance(n, ast.For) and isinstance(n.target, ast.Name):
+                loopvar = n.target.id
+                break
+        try:
+            return ev(e, {loopvar or 'line': line})
+        except Undecidable as ex:
+            raise AnalysisError('%s: argument of the line pattern in _parse() cannot be evaluated: %s' % (NUMDB, ex))
 
     def skip(self, line):
         return line[0] == '#' or line.strip() == ''
@@ -179,7 +195,8 @@ class Registry:
             text = line
             if '\r' in text or '\t' in text:
                 self.problems.append(('REG.line', i, text, 'line contains a tab or carriage return'))
-            m = getattr(model.line_re, model.how)(line)
+            subject = model.subject(line + '\n')
+            m = getattr(model.line_re, model.how)(subject.rstrip('\n') if isinstance(subject, str) else line)
             if not m:
                 self.problems.append(('REG.line', i, text, 'line is not matched by the reader grammar'))
                 continue
@@ -193,7 +210,8 @@ class Registry:
             if len(names) != len(set(names)):
                 self.problems.append(('REG.dup-prop', i, text, 'property given twice on one line: %r' % sorted(n for n in set(names) if names.count(n) > 1)))
             props = model.props_of(ptext)
-            full = dict(model.prop_re.findall(ptext))
+            m0 = getattr(model.line_re, model.how)(line)
+            full = dict(model.prop_re.findall(m0.group('props') if m0 else ptext))
             if props != full:
                 lost = sorted(k for k in full if k not in props or props[k] != full[k])
                 self.problems.append(('REG.reader-complete', i, text, 'the reader (numdb._parse) does not return the properties %r written on this line' % lost))
